@@ -143,6 +143,39 @@ def run(ctx):
                [site(b, bb) for b, bb, _ in bad])
         ctx.floor(R5, n_cast, 6, 'numeric `as` casts in ArrayImpl::cast kernels')
 
+    R6 = 'C14-R6'
+    ctx.rule(R6, 'boolean results carry `false` under NULL slots: every BoolArray a kernel in array::ops builds with '
+                 'unary_op/binary_op/ternary_op goes through clear_null before it becomes an ArrayImpl (filters and joins read the '
+                 'raw bits through BoolArray::true_array; `and`/`or` maintain the invariant from their inputs)')
+    from tmpl import local_defs
+    consumers = [c for c in prog.calls_matching(re.compile(r'PrimitiveArray::<bool>::true_array$|::true_array$'))]
+    if ctx.anchor(R6, 'BoolArray::true_array consumers (filter / join executors)', consumers):
+        n6 = 0
+        bad = {}
+        for b in prog.bodies.values():
+            if not b.name.startswith('array::ops::'):
+                continue
+            for c in b.calls:
+                if not (c.name or '').endswith('::new_bool') or not c.args or c.args[0]['k'] == 'const':
+                    continue
+                for bb, kind, payload in local_defs(b, c.args[0]['pl']['l']):
+                    if kind != 'call':
+                        continue   # a value assembled by hand (and / or): its validity is patched explicitly
+                    fn = payload.get('fn') or ''
+                    n6 += 1
+                    if re.search(r'array::ops::(unary_op|binary_op|ternary_op|try_unary_op|select_op)$', fn):
+                        bad.setdefault(b.root, []).append((b, c.bb))
+        ctx.floor(R6, n6, 10, 'boolean kernel results in array::ops')
+        roots = sorted({b.root for b in prog.bodies.values() if b.name.startswith('array::ops::<impl array::ArrayImpl>::')
+                        and any((c.name or '').endswith('::new_bool') for c in b.calls)})
+        for r in roots:
+            sites = bad.get(r, [])
+            fn = r.rsplit('::', 1)[-1]
+            ctx.ob(R6, f'ArrayImpl::{fn}·clear_null', not sites,
+                   f'{r}: {len(sites)} boolean result(s) built by a kernel without clear_null', [site(b, bb) for b, bb in sites[:3]],
+                   what=f'ArrayImpl::{fn} builds a boolean array whose raw bits under NULL are not cleared: WHERE / JOIN ON read the '
+                        f'raw bit, so a NULL predicate counts as TRUE')
+
     R4 = 'C14-R4'
     ctx.rule(R4, 'todo!/unimplemented! sites inside evaluation entry points (each is a panic inside an operator task); '
                  'armed only for sites that are not in the confirmed list')
